@@ -174,6 +174,75 @@ func checkC09(c *Ctx) {
 		r.Undecided("C09.c", "parseMatchRules", "definition", "fc", "anchor function not found")
 	}
 
+	// (e) gate: with a target whose type is not (yet) a union, exaustiveCheck's `_` arm skips the check.  That arm must be
+	// unreachable for accepted programs: isUnionMatchRules may answer true for a non-union-typed target only when the first
+	// arm binds a payload (IDENTIFIER IDENTIFIER), and binding a payload casts the target type to a union (no-return on failure).
+	r.Rule("C09.e", "a match on a target that is not union-typed is never accepted as a default-less union match", 2)
+	if t, fn := f.Term("isUnionMatchRules"); fn != nil {
+		var paths []string
+		var tp func(t ir.Term, pre string)
+		tp = func(t ir.Term, pre string) {
+			switch x := t.(type) {
+			case *ir.Lit:
+				if x.Val == "true" {
+					paths = append(paths, strings.TrimPrefix(pre, "/"))
+				}
+			case *ir.Seq:
+				tp(x.Ret, pre)
+			case *ir.If:
+				tp(x.Then.Ret, pre+"/then")
+				if x.Else != nil {
+					tp(x.Else.Ret, pre+"/else")
+				}
+			case *ir.Match:
+				sc := ir.String(f.Path, x.Scrut)
+				for _, a := range x.Arms {
+					tp(a.Body.Ret, pre+"/"+sc+"="+strings.TrimPrefix(strings.TrimPrefix(ir.CaseName(a.Cases[0]), "FType_"), "TokenType_"))
+				}
+				if x.Default != nil && !x.NeverReached {
+					tp(x.Default.Ret, pre+"/"+sc+"=_")
+				}
+			case nil:
+			default:
+				if ir.String(f.Path, t) != "false" {
+					paths = append(paths, strings.TrimPrefix(pre, "/")+"/?"+short(ir.String(f.Path, t), 40))
+				}
+			}
+		}
+		tp(t, "")
+		want := []string{
+			"ExprToType(p0)=FUnion",
+			"ExprToType(p0)=_/psCurrentTT(psConsume(var:New_TokenType_BAR, p1))=IDENTIFIER/psNextTT(psConsume(var:New_TokenType_BAR, p1))=IDENTIFIER",
+		}
+		r.Check(strings.Join(paths, " ; ") == strings.Join(want, " ; "), "C09.e", "isUnionMatchRules", "answers-union", c.Pos(f.M.Fset, fn.Decl.Pos()),
+			"arms are parsed as union arms only for a union-typed target, or — type unknown — when the first arm binds a payload (IDENTIFIER IDENTIFIER)",
+			"isUnionMatchRules answers true on paths ["+strings.Join(paths, " ; ")+"]; for a target whose type is not a union the exhaustiveness check is skipped (exaustiveCheck's `_` arm), so only the payload-binding path (which casts the type to a union) may answer true")
+	} else {
+		r.Undecided("C09.e", "isUnionMatchRules", "definition", "fc", "anchor function not found")
+	}
+	if t, fn := f.Term("parseUnionMatchRule"); fn != nil {
+		okCast := false
+		ir.Walk(t, func(x ir.Term) bool {
+			iff, ok := x.(*ir.If)
+			if !ok {
+				return true
+			}
+			cs := ir.String(f.Path, iff.Cond)
+			if strings.HasSuffix(cs, ` ne "_"))`) && strings.Contains(cs, ` ne "") && `) {
+				body := ir.String(f.Path, iff.Then.Ret)
+				if strings.Contains(body, "lookupCase(Cast(ExprToType(p1), ") {
+					okCast = true
+				}
+			}
+			return true
+		})
+		r.Check(okCast, "C09.e", "parseUnionMatchRule", "payload-binding-casts", c.Pos(f.M.Fset, fn.Decl.Pos()),
+			"an arm that binds a payload variable casts the target's type to a union (Cast panics otherwise): an untyped target cannot get past a payload-binding arm",
+			"a payload-binding arm no longer casts ExprToType(target) to a union: a match on an untyped target could be accepted unchecked")
+	} else {
+		r.Undecided("C09.e", "parseUnionMatchRule", "definition", "fc", "anchor function not found")
+	}
+
 	// (d)
 	n := checkEXH(c, "C09.d", exhUnit{label: "fc", fset: f.M.Fset, pkg: f.M.Main().Types, prog: f.Prog.Funcs}, true)
 	if b := c.LoadFC("cmd/build_sample_md"); b != nil {
